@@ -8,7 +8,8 @@ import time
 
 def vclass(result):
     if result.get('violation'):
-        return result['violation']['class'].split(':')[0]
+        klass = result['violation']['class']
+        return klass if klass.startswith('unexpected-exception') else klass.split(':')[0]
     return None
 
 
